@@ -47,6 +47,8 @@ var c09MoreValues = []c09Value{
 	// a parameter whose value is a list (its comma escaped in the rule)
 	{"NOERROR;HTTPS;10 svc.example alpn=h3\\,h2", "HTTPS|10 svc.example alpn=h3,h2"},
 	// same priority, target and parameter count; one has a flag parameter (empty value) the other lacks
+	// a response code other than NOERROR written the long way: record type and value do not take part
+	{"REFUSED;A;", "RCODE|REFUSED"}, {"REFUSED;;", "RCODE|REFUSED"}, {"NXDOMAIN;TXT;x", "RCODE|NXDOMAIN"},
 	{"NOERROR;HTTPS;10 svc.example alpn=h2 no-default-alpn=", "HTTPS|10 svc.example alpn=h2 no-default-alpn="}, {"NOERROR;HTTPS;10 svc.example alpn=h2 port=8443", "HTTPS|10 svc.example alpn=h2 port=8443"},
 }
 
